@@ -83,7 +83,8 @@ func (p *Parser) ParseFunctionParameters() []*ast.Identifier {
 
 func (p *Parser) ParseReturnStatement() *ast.ReturnStatement {
 	stmt := &ast.ReturnStatement{Token: p.CurrentToken}
-	if p.PeekToken.Type != token.SEMICOLON && p.PeekToken.Type != token.EOF && p.PeekToken.Type != token.RBRACE {
+	// restricted production: a line break after `return` ends the statement (return⏎x is `return; x`)
+	if !p.PeekToken.AfterNewline && p.PeekToken.Type != token.SEMICOLON && p.PeekToken.Type != token.EOF && p.PeekToken.Type != token.RBRACE {
 		p.NextToken()
 		stmt.ReturnValue = p.ParseExpression()
 	}
